@@ -166,6 +166,36 @@ func propC12Aggregates(t *rapid.T) {
 			keys[k]++
 		}
 	}
+	// the inputs are read-only for the Par* functions: two callers may share them. Run the same call
+	// from two goroutines at once over the SAME input bitmaps (a write to an input by any worker is
+	// then a data race for the detector), and check afterwards that every input still equals its model.
+	if fn != "ParOr64" && len(bs) > 0 && rapid.Bool().Draw(t, "sharedInputs") {
+		guarded(t, what+" (two concurrent callers sharing the inputs)", func() {
+			var wg sync.WaitGroup
+			for g := 0; g < 2; g++ {
+				wg.Add(1)
+				go func() {
+					defer wg.Done()
+					args := append([]*roaring.Bitmap(nil), bs...)
+					switch fn {
+					case "ParOr":
+						roaring.ParOr(workers, args...)
+					case "ParHeapOr":
+						roaring.ParHeapOr(workers, args...)
+					default:
+						roaring.ParAnd(workers, args...)
+					}
+				}()
+			}
+			wg.Wait()
+		})
+		for i, b := range bs {
+			if g := setOf(b); g == nil || !g.Equal(ms[i]) {
+				t.Fatalf("%s: input #%d was modified by the call: %s", what, i, model.Diff(ms[i], g))
+			}
+		}
+		settle(t, base, what)
+	}
 	for r := 0; r < reps; r++ {
 		var got *model.Set
 		var want *model.Set
@@ -183,19 +213,55 @@ func propC12Aggregates(t *rapid.T) {
 				}
 				got, want = setOf(roaring.ParAnd(workers, args...)), fold("and", ms)
 			case "ParOr64":
-				// the same 32-bit sets spread over two buckets
+				// every 32-bit chunk key of the list becomes a 64-bit bucket (up to 260 buckets, so that a
+				// worker's chunk holds several keys); a member's values keep their low 16 bits
 				var a64 []*roaring64.Bitmap
+				var m64s []*model.Set
 				want = model.New()
-				for i, m := range ms {
+				for _, m := range ms {
 					b := roaring64.New()
-					hi := uint64(i%2) << 32
+					wi := model.New()
 					for _, iv := range m.Intervals() {
-						b.AddRange(hi+iv.Lo, hi+iv.Hi+1)
-						want.AddRange(hi+iv.Lo, hi+iv.Hi)
+						for k := iv.Lo >> 16; k <= iv.Hi>>16; k++ {
+							lo, hi := iv.Lo, iv.Hi
+							if lo < k<<16 {
+								lo = k << 16
+							}
+							if hi > k<<16+65535 {
+								hi = k<<16 + 65535
+							}
+							bucket := k << 32
+							b.AddRange(bucket+(lo&0xFFFF), bucket+(hi&0xFFFF)+1)
+							wi.AddRange(bucket+(lo&0xFFFF), bucket+(hi&0xFFFF))
+						}
 					}
 					a64 = append(a64, b)
+					m64s = append(m64s, wi)
+					want = model.Or(want, wi)
 				}
-				res := roaring64.ParOr(workers, a64...)
+				var res *roaring64.Bitmap
+				var wg sync.WaitGroup
+				for g := 0; g < 2; g++ { // two callers share the inputs
+					wg.Add(1)
+					go func(g int) {
+						defer wg.Done()
+						r := roaring64.ParOr(workers, append([]*roaring64.Bitmap(nil), a64...)...)
+						if g == 0 {
+							res = r
+						}
+					}(g)
+				}
+				wg.Wait()
+				for i, b := range a64 {
+					by, err := b.ToBytes()
+					if err != nil {
+						panic(err)
+					}
+					bk, _, err := spec.Decode64(by)
+					if err != nil || !spec.Set64Of(bk).Equal(m64s[i]) {
+						panic(fmt.Sprintf("roaring64.ParOr modified its input #%d", i))
+					}
+				}
 				by, err := res.ToBytes()
 				if err != nil {
 					return
